@@ -155,7 +155,9 @@ pub fn run(tier: &str, seed: u64) -> i32 {
         optimise()/matches() never panic. A mismatch is attributed to a known finding only if (K5) coalesce is off, \
         shake or matrix on and the condition holds all()/of(), or (K1/K2) the optimised verdict is admissible for the \
         reference interpreter relaxed by exactly 'and may yield any non-true operand's result' and 'a double \
-        negation may cancel'; anything else is a violation. Non-trivial: the default optimisation changes the \
+        negation may cancel'; anything else is a violation. Further streams: optimiser-shaped rules, same-holder nested \
+        rules, same-field rules (lists, quantifiers, case twins), wide or-groups (100-380 mappings), ~300 deterministic \
+        case-twin rules in both orders, and regexes that compile alone but not as one set. Non-trivial: the default optimisation changes the \
         expression structurally and the documents give both verdicts; distinct by rule text."
         .into();
     report.assumptions = vec![
